@@ -84,7 +84,7 @@ def world_for(case, i, rng):
             keytxt = {"empty": "", "short": KEY[:10], "odd": KEY[:31], "nonhex": "zz" + KEY[2:], "long": KEY * 20, "binary": "\x00\x01\x02\xff" * 8}[case["content"]]
         elif w == "3k3y":
             ln = case["len"]
-            spec = {"kind": "3k3y-enc" if case["wm"] == "enc" else "3k3y-dec", "key": KEY, "regions": [[0, 1], [1, 3]], "sectors": ln // S, "extraLen": ln % S,
+            spec = {"kind": "3k3y-enc" if case["wm"] == "enc" else "3k3y-dec", "key": KEY, "regions": [[0, 1], [3, 5]], "sectors": ln // S, "extraLen": ln % S,
                     "plainName": "badplain%d" % i}
             img["size"] = img["vsize"] = srv.pos(ln)
             img = dict(img, p=["stuff", "bad.iso"])
